@@ -651,8 +651,13 @@ impl Scenario for C05 {
 
 #[derive(Clone, Debug, Serialize, Deserialize)]
 pub struct TCase {
-  /// 0 = from_iter(inners).merge_all_threads(MAX), 1 = merge_all_threads(#inners), 2 = flat_map_threads
+  /// 0 = from_iter(inners).merge_all_threads(MAX), 1 = merge_all_threads(#inners), 2 = flat_map_threads,
+  /// 3 = concat_all_threads, 4 = merge_all_threads(#inners - 1): inners wait for a slot there, and
+  /// what a hot inner emits before it is subscribed is legitimately lost (relaxed oracle)
   form: u8,
+  /// one more thread unsubscribes the flattened stream (relaxed oracle)
+  #[serde(default)]
+  unsub: bool,
   /// per inner: number of items, then 0 = nothing, 1 = complete, 2 = error
   inners: Vec<(usize, u8)>,
   sched: crate::threadsim::SchedSpec,
@@ -663,6 +668,9 @@ pub struct C05Threads;
 impl Scenario for C05Threads {
   fn name(&self) -> &'static str {
     "c05.threads"
+  }
+  fn weight(&self) -> usize {
+    2
   }
   fn components(&self) -> (&'static [&'static str], &'static [&'static str]) {
     (&["merge_all_threads / flat_map_threads state cell (MutArc) with one emitting thread per inner SubjectThreads"], &["OS thread scheduling (baton)"])
@@ -689,12 +697,18 @@ impl Scenario for C05Threads {
       1 => Strategy::Seq { den: 3 },
       _ => Strategy::Pct { d: rng.range(1, 3) as u8, k: 40 },
     };
-    serde_json::to_value(TCase { form: rng.below(3) as u8, inners, sched: SchedSpec::Seeded { seed: rng.next_u64(), strategy } }).unwrap()
+    // one case in four is the teardown race: three short inners that all complete, a
+    // concurrency limit below their number and an unsubscribing thread
+    if rng.chance(1, 4) {
+      let inners = (0..3).map(|_| (rng.below(2), 1u8)).collect();
+      return serde_json::to_value(TCase { form: 3 + rng.below(2) as u8, unsub: true, inners, sched: SchedSpec::Seeded { seed: rng.next_u64(), strategy } }).unwrap();
+    }
+    serde_json::to_value(TCase { form: rng.below(5) as u8, unsub: rng.chance(1, 4), inners, sched: SchedSpec::Seeded { seed: rng.next_u64(), strategy } }).unwrap()
   }
   fn run(&self, case: &Value) -> Result<Outcome, String> {
     use crate::threadsim::*;
     let case: TCase = serde_json::from_value(case.clone()).map_err(|e| e.to_string())?;
-    if case.inners.is_empty() || case.inners.len() > 4 || case.form > 2 || case.inners.iter().any(|(n, t)| *n > 6 || *t > 2) {
+    if case.inners.is_empty() || case.inners.len() > 4 || case.form > 4 || case.inners.iter().any(|(n, t)| *n > 6 || *t > 2) {
       return Err("bad shape".into());
     }
     let shr = Shared::new();
@@ -703,17 +717,22 @@ impl Scenario for C05Threads {
     let p = Probe(log.clone());
     let m = case.inners.len();
     let subjects: Vec<SubjectThreads<Val, E>> = (0..m).map(|_| SubjectThreads::default()).collect();
-    let sub: Box<dyn std::any::Any> = match case.form {
-      0 => Box::new(observable::from_iter(subjects.clone()).on_error_map(|_| 0).merge_all_threads(usize::MAX).actual_subscribe(p)),
-      1 => Box::new(observable::from_iter(subjects.clone()).on_error_map(|_| 0).merge_all_threads(m).actual_subscribe(p)),
-      _ => {
+    let sub: BoxSubscriptionThreads = match case.form {
+      0 => BoxSubscriptionThreads::new(observable::from_iter(subjects.clone()).on_error_map(|_| 0).merge_all_threads(usize::MAX).actual_subscribe(p)),
+      1 => BoxSubscriptionThreads::new(observable::from_iter(subjects.clone()).on_error_map(|_| 0).merge_all_threads(m).actual_subscribe(p)),
+      2 => {
         let ss = subjects.clone();
-        Box::new(observable::from_iter(0..m).on_error_map(|_| 0).flat_map_threads(move |i| ss[i].clone()).actual_subscribe(p))
+        BoxSubscriptionThreads::new(observable::from_iter(0..m).on_error_map(|_| 0).flat_map_threads(move |i| ss[i].clone()).actual_subscribe(p))
       }
+      3 => BoxSubscriptionThreads::new(observable::from_iter(subjects.clone()).on_error_map(|_| 0).concat_all_threads().actual_subscribe(p)),
+      _ => BoxSubscriptionThreads::new(observable::from_iter(subjects.clone()).on_error_map(|_| 0).merge_all_threads((m - 1).max(1)).actual_subscribe(p)),
     };
+    let relaxed = case.form >= 3 || case.unsub;
+    let sub = Arc::new(Mutex::new(Some(sub)));
+    let unsub_ret: Arc<Mutex<Option<u64>>> = Default::default();
     // (inner, item, invoke, ret) / (inner, terminal kind, invoke, ret)
     let oplog: Arc<Mutex<Vec<(usize, i64, u64, u64)>>> = Default::default();
-    let ts = TSim::new(shr.clone(), &case.sched, m, 0, 10_000);
+    let ts = TSim::new(shr.clone(), &case.sched, m + case.unsub as usize, 0, 10_000);
     let mut bodies: Vec<Body> = Vec::new();
     for (k, (n, term)) in case.inners.iter().enumerate() {
       let mut s = subjects[k].clone();
@@ -739,8 +758,20 @@ impl Scenario for C05Threads {
         oplog.lock().unwrap().push((k, -(term as i64), invoke, ret));
       }));
     }
+    if case.unsub {
+      let sub = sub.clone();
+      let unsub_ret = unsub_ret.clone();
+      bodies.push(Box::new(move || {
+        harness_yield("before-unsubscribe");
+        let u = sub.lock().unwrap().take();
+        if let Some(u) = u {
+          u.unsubscribe();
+          *unsub_ret.lock().unwrap() = Some(shared().stamp());
+        }
+      }));
+    }
     let rep = ts.run(bodies);
-    let site = ["merge_all_threads(MAX)", "merge_all_threads(n)", "flat_map_threads"][case.form as usize].to_string();
+    let site = ["merge_all_threads(MAX)", "merge_all_threads(n)", "flat_map_threads", "concat_all_threads", "merge_all_threads(n-1)"][case.form as usize].to_string();
     let recs = log.records();
     let got: Vec<Ev> = recs.iter().map(|r| r.ev.clone()).collect();
     let ops = oplog.lock().unwrap().clone();
@@ -777,8 +808,13 @@ impl Scenario for C05Threads {
           bad("c05.items", format!("inner {}'s items out of order: {:?}", k, mine));
         }
       }
+      if let Some(u) = *unsub_ret.lock().unwrap() {
+        if let Some(r) = recs.iter().find(|r| r.seq > u) {
+          bad("c05.after-unsubscribe", format!("{} was delivered after unsubscribe() had returned", fmt_ev(&r.ev)));
+        }
+      }
       // exactly once: every item whose next() returned before any inner failed
-      for o in ops.iter().filter(|o| o.1 > 0) {
+      for o in ops.iter().filter(|o| o.1 > 0 && !relaxed) {
         if first_err.map_or(true, |e| o.3 < e) && !items.contains(&o.1) {
           bad("c05.items", format!("item {} of inner {} (next returned at stamp {}) was not delivered: [{}]", o.1, o.0, o.3, fmt_trace(&got)));
         }
@@ -790,10 +826,12 @@ impl Scenario for C05Threads {
         Some(Ev::Err(_)) if n_err == 0 => bad("c05.unexpected-error", format!("[{}]", fmt_trace(&got))),
         _ => {}
       }
-      if all_completed && got.last() != Some(&Ev::Complete) {
+      if relaxed {
+        // (completion and error delivery depend on what was subscribed when)
+      } else if all_completed && got.last() != Some(&Ev::Complete) {
         bad("c05.not-completed", format!("the outer and all {} inners completed and every thread returned; the subscriber saw [{}]", m, fmt_trace(&got)));
       }
-      if n_err > 0 && !matches!(got.last(), Some(Ev::Err(_))) {
+      if !relaxed && n_err > 0 && !matches!(got.last(), Some(Ev::Err(_))) {
         bad("c05.unexpected-error", format!("an inner failed and every thread returned, yet no error was delivered: [{}]", fmt_trace(&got)));
       }
     }
